@@ -8,7 +8,7 @@
 
    This file contains statements only; each is closed by [exact lemma]. *)
 From Coq Require Import NArith List Bool String.
-From MlsV Require Import Codec CodecPrim CodecProofs CodecTypes CodecCases CodecTypesProofs.
+From MlsV Require Import Codec CodecPrim CodecProofs CodecTypes CodecCases CodecTypesProofs VarIntGen VarIntGenProofs.
 Import ListNotations.
 Local Open Scope N_scope.
 
@@ -103,3 +103,29 @@ Print Assumptions C12_all_types_wf.
 Print Assumptions C12_canonical_types.
 Print Assumptions C12_public_message_canonical.
 Print Assumptions C12_mls_message_canonical.
+
+(* The hand-written variable-length integer codec as translated from mls-rs-codec/src/varint.rs
+   (bit-length thresholds with the LengthEncoding discriminants, VarInt::MAX and the TryFrom bound,
+   marker bits OR-ed into the big-endian bytes and the slice taken per arm, prefix shift, admitted
+   prefixes, byte count, first-byte mask, shift-and-or fold, minimal-length comparison) IS the
+   arithmetic model every theorem above is about: for every value and every byte string. *)
+Theorem C12_translated_varint_size_is_the_model : forall n,
+  n <= varint_max -> gen_count_bytes n = Some (varint_len n).
+Proof. exact gen_count_bytes_is_model. Qed.
+Print Assumptions C12_translated_varint_size_is_the_model.
+
+(* count_bytes_to_encode_int panics exactly on values that TryFrom refuses, so no VarInt that exists
+   can reach the panic; the decoder's value has at most 30 bits and never reaches it either *)
+Theorem C12_translated_varint_size_panics_only_beyond_the_maximum : forall n,
+  gen_count_bytes n = None <-> varint_max < n.
+Proof. exact gen_count_bytes_panics_iff. Qed.
+Print Assumptions C12_translated_varint_size_panics_only_beyond_the_maximum.
+
+Theorem C12_translated_varint_encoder_is_the_model : forall n, gen_encode_varint n = encode_varint n.
+Proof. exact gen_encode_varint_is_model. Qed.
+Print Assumptions C12_translated_varint_encoder_is_the_model.
+
+Theorem C12_translated_varint_decoder_is_the_model : forall bs,
+  bytes_ok bs -> gen_decode_varint bs = decode_varint bs.
+Proof. exact gen_decode_varint_is_model. Qed.
+Print Assumptions C12_translated_varint_decoder_is_the_model.
